@@ -49,6 +49,15 @@ import (
 //	        (Timeout by assignment, 300..500 ms) is in force on a healthy connection and the client stays idle for
 //	        longer than it before frames of every size class (small, around and above the 2 MiB writer buffer,
 //	        batches that overflow the writer in the middle of a frame) are handed over
+//	slow    direct mode WITH the client's background worker running (as GetOneWayTcpClient starts it), a HEALTHY but SLOW
+//	        collector: it stops reading in the middle of the first or second frame (small receive buffer) and stays
+//	        connected; 1..3 senders hand over frames of 0.3..3 MiB, the first ones fill the socket, one sender sits in
+//	        its flush (or in a write-through inside send()) and the others queue up behind the send lock; that state
+//	        is held for longer than one poll of the worker (5 s, a constant; quick 6.5 s, thorough also 12 s and 31 s:
+//	        2 and 6 polls) under the client's default write deadline (60 s: nothing expires); then the collector reads
+//	        everything.  Whatever the worker (or anything else in the client) does ON ITS OWN to the shared writer or
+//	        connection meanwhile shows as a hook event of actor W without a step of the specification, and in the
+//	        collector's byte stream (a frame twice, frames mangled)
 //
 // Every generator hands its packs over through all public entry points (Send, SendFlush(false), SendFlush(true)) and
 // with plain and decorated per-send options; direct, fault, sac and worker also change the configuration between
@@ -118,6 +127,7 @@ func Run(c *core.Ctx) error {
 	run(tg, 1, mk("wdial", c.Pick(4, 12), genWdial))
 
 	var js []job
+	js = append(js, mk("slow", c.Pick(2, 6), genSlow)...) // holds a sender in its flush for 6.5..31 s: first
 	js = append(js, mk("idle", c.Pick(5, 20), genIdle)...) // the worker cases idle for 6..12 s: first
 	js = append(js, mk("wout", c.Pick(1, 6), genWout)...) // slow (the client sleeps 5 s after a refused dial): first
 	js = append(js, mk("worker", c.Pick(4, 24), genWorker)...)
@@ -1420,5 +1430,50 @@ func genIdleDeadline(r *rand.Rand, gen string, cas int) *scenario {
 	if mode == "sac" {
 		sc.drainAll()
 	}
+	return sc
+}
+
+// ---------------------------------------------------------------- slow: a healthy, slow collector and the idle worker
+
+// slowHolds: how long (seconds) the collector does not read, by case: longer than 1, 2 and 6 polls of the worker.
+var slowHolds = []float64{6.5, 6.5, 12, 12, 31, 6.5}
+
+// genSlow: see the list of generators.  The hold is a plain wait of the scenario, not an ordering: if the machine is so
+// loaded that the senders are not yet held up when it ends, or the worker's poll does not fall into it, the history
+// is an ordinary healthy one (detection lost).  The write deadline stays the client's default of 60 s, far longer than
+// any hold: no deadline expires, the connection is healthy all the time.
+func genSlow(r *rand.Rand, gen string, cas int) *scenario {
+	hold := time.Duration(slowHolds[cas%len(slowHolds)] * float64(time.Second))
+	st := newStall(r.Intn(2), "mid")
+	sc, err := newScenario(gen, cas, r, scConf{mode: "direct", worker: true, nondet: true,
+		cols: []colConf{{stalls: map[int]*stallSpec{0: st}, rcvbuf: 64 << 10}}})
+	if err != nil {
+		return nil
+	}
+	defer st.release()
+	senders := []int{3, 1, 2}[cas%3]
+	per := []int{4, 9, 5}[cas%3]
+	size := heavySize(0) // every frame goes through the writer's buffer: the sender is held up in its flush
+	if cas%4 >= 2 {
+		size = heavySize(2) // some frames larger than the writer: held up in a write-through inside send()
+	}
+	sc.cutDesc = append(sc.cutDesc, fmt.Sprintf("slow f%d/hold=%v", st.Frame, hold))
+	packs := sc.batch(r, senders, per, size)
+	done := make(chan struct{})
+	go func() { defer close(done); sc.runAll(packs) }()
+	// the first frames fill the socket within milliseconds; then one sender waits in its flush, the others for the lock
+	select {
+	case <-done:
+	case <-time.After(hold):
+	}
+	st.release()
+	select {
+	case <-done:
+	case <-time.After(waitMax):
+		sc.note("the senders did not finish after the collector went on reading")
+		return sc
+	}
+	// the connection is as good as new: what follows arrives behind everything else
+	sc.runAll(sc.batch(r, senders, 1, smallSize))
 	return sc
 }
